@@ -27,7 +27,20 @@ What the code does, and the model follows:
   attempts panicked);
 * a panicking attempt ends its task without sending; in latency mode nothing notices;
 * attempts survive the result and the drop of the call future (their `inner_done` still appears);
-  nothing is ever started after either.
+  nothing is ever started after either;
+* delays are `Duration`s: the model keeps them in **microseconds** (`Cfg.delay`), instants in
+  milliseconds (the harness moves time in whole milliseconds). The mode test is `delay(1) > ZERO` on
+  the duration itself; tokio's timer has millisecond resolution and rounds a deadline **up**, so the
+  hedge timer armed at instant `t` with `delay n` fires at `t + ⌈delay n / 1000⌉` (`timerMs`);
+* a hedge (not the primary, which runs on the instance the caller polled ready) is a task that first
+  drives its **fresh clone** of the inner service to readiness and only then calls it. A request may
+  carry a readiness plan (`warm=`): the clone of attempt `i ≥ 1` is ready `warm[i-1]` ms after its
+  first readiness poll (or never). Such an attempt is *started* (it counts, the timer is re-armed
+  from that instant) when its task is spawned and *waits* (`Wait.till`/`Wait.forever`); the inner
+  call — serial, script step (the scripted inner service hands out steps in **call** order) and
+  `inner_call` event — happens in the `adv` step in which the clone has become ready, in the order
+  the runtime delivered it (`@rdy=c:i`, an observed choice like `@done=k`). The select loop never
+  waits for that readiness: results keep being received while a clone is warming up.
 
 `attempts` is kept newest-first; `chan`/`recvd` hold the (finished) attempt records themselves.
 -/
@@ -35,17 +48,30 @@ namespace TR.Hedge
 
 structure Cfg where
   max   : Nat
-  /-- `delay n` = configured delay before attempt number `n ≥ 1` (`HedgeDelay::get_delay(n)`),
-  counted from the start of attempt `n - 1` -/
+  /-- `delay n` = configured delay **in microseconds** before attempt number `n ≥ 1`
+  (`HedgeDelay::get_delay(n)`), counted from the start of attempt `n - 1` -/
   delay : Nat → Nat
+
+/-- milliseconds after which a timer armed (at a whole-millisecond instant) with `delay n` fires:
+tokio rounds the deadline up to the next millisecond -/
+def timerMs (cfg : Cfg) (n : Nat) : Nat := (cfg.delay n + 999) / 1000
+
+/-- where the task of an attempt is before its inner call -/
+inductive Wait
+  | no                  -- the inner service has been called
+  | till (t : Nat)      -- driving its fresh clone to readiness; the clone is ready at instant `t`
+  | forever             -- the clone never becomes ready
+deriving DecidableEq, Repr
 
 structure Attempt where
   idx     : Nat               -- attempt number, 0 = primary
-  k       : Nat               -- serial of its inner call
-  startAt : Nat               -- instant of `inner.call()`
-  doneAt  : Nat               -- instant the inner future becomes ready (`startAt + latency`)
-  out     : Out
+  k       : Nat               -- serial of its inner call (meaningful once `wait = .no`)
+  startAt : Nat               -- instant the attempt was started (its task spawned; with a clone that is
+                              -- ready at once this is also the instant of `inner.call()`)
+  doneAt  : Nat               -- instant the inner future becomes ready (call instant + latency)
+  out     : Out               -- scripted outcome (assigned at the call; `.never` while waiting)
   fin     : Option Nat := none   -- instant its completion was observed (`inner_done`)
+  wait    : Wait := .no
 deriving DecidableEq, Repr
 
 inductive Phase
@@ -54,6 +80,7 @@ deriving DecidableEq, Repr
 
 structure Call where
   plan        : List Step
+  warm        : List (Option Nat) := []   -- readiness plan of the fresh clones (`none` = never ready)
   phase       : Phase := .fresh
   attempts    : List Attempt := []        -- newest first
   nextHedgeAt : Nat := 0                  -- deadline of `delay_fut`
@@ -71,12 +98,21 @@ structure State where
   log    : List Ev := []
 deriving Repr
 
+/-- what a timer that has elapsed during an advance sets off -/
+inductive Fire
+  | done (k : Nat)       -- the inner call with serial `k` completes
+  | rdy (c i : Nat)      -- the clone of attempt `i` of request `c` is ready: the attempt calls
+deriving DecidableEq, Repr
+
+/-- `[1, 0]` reads as the completions of serials 1 and 0 -/
+instance (n : Nat) : OfNat Fire n := ⟨.done n⟩
+
 inductive Op
-  | arrive (c : Nat) (plan : List Step)
+  | arrive (c : Nat) (plan : List Step) (warm : List (Option Nat) := [])
   | poll (c : Nat)
   | drop (c : Nat)
-  /-- `order`: serials of the attempts completing in this advance, in the observed order -/
-  | adv (ms : Nat) (order : List Nat)
+  /-- `order`: what the elapsed timers set off in this advance, in the observed order -/
+  | adv (ms : Nat) (order : List Fire)
 deriving Repr
 
 def live : Phase → Bool
@@ -99,12 +135,21 @@ def isFail : Out → Bool
   | .panic => true
   | _ => false
 
+def isCalled (a : Attempt) : Bool := decide (a.wait = .no)
+
+/-- number of inner calls made for this request so far = index of the next script step -/
+def nCalled (cl : Call) : Nat := cl.attempts.countP isCalled
+
+def readyBy (now : Nat) : Wait → Bool
+  | .till t => decide (t ≤ now)
+  | _ => false
+
 /-- the first attempt with serial `k` that is still running, is due and can complete is marked
 finished at `now`; returns the marked record and the new list -/
 def markFin (now k : Nat) : List Attempt → Option (Attempt × List Attempt)
   | [] => none
   | a :: tl =>
-    if a.k = k ∧ a.fin = none ∧ a.doneAt ≤ now ∧ a.out ≠ .never then
+    if a.k = k ∧ a.fin = none ∧ a.doneAt ≤ now ∧ a.out ≠ .never ∧ a.wait = .no then
       some ({ a with fin := some now }, { a with fin := some now } :: tl)
     else match markFin now k tl with
       | some (a', tl') => some (a', a :: tl')
@@ -128,17 +173,67 @@ structure W where
 
 def pushAttempt (now : Nat) (w : W) : W :=
   let i := w.cl.attempts.length
-  let st := w.cl.plan.getD i ⟨0, .ok⟩
+  let st := w.cl.plan.getD (nCalled w.cl) ⟨0, .ok⟩
   let a : Attempt := { idx := i, k := w.serial, startAt := now, doneAt := now + st.lat, out := st.out }
   { w with cl := { w.cl with attempts := a :: w.cl.attempts } }
 
-/-- spawn the next attempt; its task runs right after the poll: `inner_call`, and with latency 0
-the inner future is ready at its first poll -/
-def startAttempt (now c : Nat) (w : W) : W :=
-  let st := w.cl.plan.getD w.cl.attempts.length ⟨0, .ok⟩
+/-- spawn the next attempt on a clone that is ready at once; its task runs right after the poll:
+`inner_call`, and with latency 0 the inner future is ready at its first poll -/
+def callAttempt (now c : Nat) (w : W) : W :=
+  let st := w.cl.plan.getD (nCalled w.cl) ⟨0, .ok⟩
   let w1 := pushAttempt now w
   let r := if st.lat = 0 then finishCall now w.serial c w1.cl else (w1.cl, [])
   { cl := r.1, serial := w.serial + 1, evs := w.evs ++ [.innerCall c w.serial] ++ r.2 }
+
+/-- readiness plan entry of the next attempt (`none`: not listed, or the primary) -/
+def warmOf (cl : Call) : Option (Option Nat) :=
+  if cl.attempts.length = 0 then none else cl.warm[cl.attempts.length - 1]?
+
+def warmText : Option Nat → String
+  | some d => toString d
+  | none => "never"
+
+/-- first readiness poll of the fresh clone of attempt `i` -/
+def warmEv (c i : Nat) (wv : Option Nat) : Ev := .raw s!"inner_warm {c} {i} {warmText wv}"
+
+/-- the attempt exists (its task is spawned) but has not called the inner service yet -/
+def pushWaiting (now : Nat) (wt : Wait) (w : W) : W :=
+  let a : Attempt := { idx := w.cl.attempts.length, k := 0, startAt := now, doneAt := 0, out := .never, wait := wt }
+  { w with cl := { w.cl with attempts := a :: w.cl.attempts } }
+
+/-- spawn the next attempt: its task polls the readiness of its clone and calls if it is ready -/
+def startAttempt (now c : Nat) (w : W) : W :=
+  match warmOf w.cl with
+  | none => callAttempt now c w
+  | some (some d) =>
+    if d = 0 then callAttempt now c { w with evs := w.evs ++ [warmEv c w.cl.attempts.length (some d)] }
+    else pushWaiting now (.till (now + d)) { w with evs := w.evs ++ [warmEv c w.cl.attempts.length (some d)] }
+  | some none => pushWaiting now .forever { w with evs := w.evs ++ [warmEv c w.cl.attempts.length none] }
+
+/-- the waiting attempt calls the inner service at `now`: serial `k`, script step `st` -/
+def Attempt.call (a : Attempt) (now k : Nat) (st : Step) : Attempt :=
+  { a with wait := .no, k := k, doneAt := now + st.lat, out := st.out }
+
+/-- the first waiting attempt number `i` whose clone is ready by `now` becomes a called one -/
+def markCall (now i k : Nat) (st : Step) : List Attempt → Option (List Attempt)
+  | [] => none
+  | a :: tl =>
+    if a.idx = i ∧ readyBy now a.wait = true ∧ a.fin = none then
+      some (a.call now k st :: tl)
+    else match markCall now i k st tl with
+      | some tl' => some (a :: tl')
+      | none => none
+
+/-- the clone of attempt `i` is ready: its task calls the inner service (`inner_call`, next serial,
+next script step), and with latency 0 the attempt completes at once -/
+def readyCall (now c i : Nat) (w : W) : W :=
+  let st := w.cl.plan.getD (nCalled w.cl) ⟨0, .ok⟩
+  match markCall now i w.serial st w.cl.attempts with
+  | none => w
+  | some l' =>
+    let r := if st.lat = 0 then finishCall now w.serial c { w.cl with attempts := l' }
+             else ({ w.cl with attempts := l' }, [])
+    { cl := r.1, serial := w.serial + 1, evs := w.evs ++ [.innerCall c w.serial] ++ r.2 }
 
 def resolve (now : Nat) (r : Res) (cl : Call) : Call :=
   { cl with phase := .done, result := some (now, r) }
@@ -182,7 +277,7 @@ def spawnLat (cfg : Cfg) (now c : Nat) : Nat → W → W
       let w := startAttempt now c w
       let n := w.cl.attempts.length
       spawnLat cfg now c fuel
-        (if n < cfg.max then { w with cl := { w.cl with nextHedgeAt := now + cfg.delay n } } else w)
+        (if n < cfg.max then { w with cl := { w.cl with nextHedgeAt := now + timerMs cfg n } } else w)
     else w
 
 /-- drain phase: first `Ok` wins; all-attempts-failed only when the channel is empty and closed -/
@@ -206,7 +301,7 @@ def startN (now c : Nat) : Nat → W → W
 /-- first poll: primary, then the mode is chosen once from `delay 1` -/
 def pollFresh (cfg : Cfg) (now c : Nat) (w : W) : W :=
   if 1 < cfg.max ∧ cfg.delay 1 ≠ 0 then
-    startAttempt now c { w with cl := { w.cl with phase := .latency, nextHedgeAt := now + cfg.delay 1 } }
+    startAttempt now c { w with cl := { w.cl with phase := .latency, nextHedgeAt := now + timerMs cfg 1 } }
   else
     startN now c (cfg.max - 1) (startAttempt now c { w with cl := { w.cl with phase := .drain } })
 
@@ -251,46 +346,65 @@ def finishOne (s : State) (k : Nat) : State :=
   { s with calls := s.calls.map (fun p => (p.1, (finishCall s.now k p.1 p.2).1)),
            log := s.log ++ s.calls.flatMap (fun p => (finishCall s.now k p.1 p.2).2) }
 
-def isDue (now : Nat) (a : Attempt) : Bool :=
-  a.fin.isNone && decide (a.doneAt ≤ now) && decide (a.out ≠ .never)
+/-- the clone of attempt `i` of request `c` is ready -/
+def readyOne (s : State) (c i : Nat) : State :=
+  match lookup s.calls c with
+  | none => s
+  | some cl =>
+    let w := readyCall s.now c i { cl := cl, serial := s.serial }
+    { s with calls := setCall s.calls c w.cl, serial := w.serial, log := s.log ++ w.evs }
 
-/-- the attempts that complete when time reaches `s.now`, oldest first per call -/
-def due (s : State) : List Attempt :=
-  s.calls.flatMap fun p => p.2.attempts.reverse.filter (isDue s.now)
+def fireOne (s : State) : Fire → State
+  | .done k => finishOne s k
+  | .rdy c i => readyOne s c i
+
+def isDue (now : Nat) (a : Attempt) : Bool :=
+  a.fin.isNone && decide (a.doneAt ≤ now) && decide (a.out ≠ .never) && isCalled a
+
+/-- the timer of this attempt (inner latency, or warm-up of its clone) that has elapsed, with its deadline -/
+def dueOf (now c : Nat) (a : Attempt) : Option (Fire × Nat) :=
+  if isDue now a then some (.done a.k, a.doneAt)
+  else match a.wait with
+    | .till t => if t ≤ now ∧ a.fin = none then some (.rdy c a.idx, t) else none
+    | _ => none
+
+/-- what happens when time reaches `s.now`, oldest attempt first per call -/
+def due (s : State) : List (Fire × Nat) :=
+  s.calls.flatMap fun p => p.2.attempts.reverse.filterMap (dueOf s.now p.1)
 
 def nondecr : List Nat → Bool
   | a :: b :: tl => decide (a ≤ b) && nondecr (b :: tl)
   | _ => true
 
-def deadlineOf (d : List Attempt) (k : Nat) : Nat :=
-  match d.find? (fun a => a.k == k) with
-  | some a => a.doneAt
+def deadlineOf (d : List (Fire × Nat)) (f : Fire) : Nat :=
+  match d.find? (fun x => x.1 == f) with
+  | some x => x.2
   | none => 0
 
-/-- allowed completion orders: a permutation of the due attempts, in order of their deadlines
+/-- allowed orders: a permutation of what is due, in order of the deadlines
 (tokio's timer wheel fires in deadline order; the order within one deadline is the runtime's) -/
-def orderAllowed (d : List Attempt) (order : List Nat) : Bool :=
-  order.isPerm (d.map (·.k)) && nondecr (order.map (deadlineOf d))
+def orderAllowed (d : List (Fire × Nat)) (order : List Fire) : Bool :=
+  order.isPerm (d.map (·.1)) && nondecr (order.map (deadlineOf d))
 
-def insertByDeadline (a : Attempt) : List Attempt → List Attempt
+def insertByDeadline (a : Fire × Nat) : List (Fire × Nat) → List (Fire × Nat)
   | [] => [a]
-  | b :: tl => if a.doneAt < b.doneAt then a :: b :: tl else b :: insertByDeadline a tl
+  | b :: tl => if a.2 < b.2 then a :: b :: tl else b :: insertByDeadline a tl
 
-def canonicalOrder (d : List Attempt) : List Nat :=
-  (d.foldl (fun acc a => insertByDeadline a acc) []).map (·.k)
+def canonicalOrder (d : List (Fire × Nat)) : List Fire :=
+  (d.foldl (fun acc a => insertByDeadline a acc) []).map (·.1)
 
-def advS (s : State) (ms : Nat) (order : List Nat) : State :=
+def advS (s : State) (ms : Nat) (order : List Fire) : State :=
   let s := { s with now := s.now + ms }
   let d := due s
-  if orderAllowed d order then order.foldl finishOne s
-  else (canonicalOrder d).foldl finishOne { s with log := s.log ++ [.raw "choice-not-allowed"] }
+  if orderAllowed d order then order.foldl fireOne s
+  else (canonicalOrder d).foldl fireOne { s with log := s.log ++ [.raw "choice-not-allowed"] }
 
-def arriveS (s : State) (c : Nat) (plan : List Step) : State :=
-  if (lookup s.calls c).isSome then s else { s with calls := s.calls ++ [(c, { plan := plan })] }
+def arriveS (s : State) (c : Nat) (plan : List Step) (warm : List (Option Nat) := []) : State :=
+  if (lookup s.calls c).isSome then s else { s with calls := s.calls ++ [(c, { plan := plan, warm := warm })] }
 
 def stepS (cfg : Cfg) (s : State) (op : Op) : State :=
   match op with
-  | .arrive c plan => arriveS s c plan
+  | .arrive c plan warm => arriveS s c plan warm
   | .poll c => pollS cfg s c
   | .drop c => dropS s c
   | .adv ms order => advS s ms order
@@ -300,28 +414,42 @@ def run (cfg : Cfg) (ops : List Op) : State := ops.foldl (stepS cfg) init
 
 /-! ## line protocol -/
 
-def parseOrder (ws : List String) : List Nat :=
+def parseOrder (ws : List String) : List Fire :=
   ws.filterMap fun w =>
-    if w.startsWith "@done=" then (w.drop 6).toString.toNat? else none
+    if w.startsWith "@done=" then (w.drop 6).toString.toNat?.map Fire.done
+    else if w.startsWith "@rdy=" then
+      match (w.drop 5).toString.splitOn ":" with
+      | [c, i] => match c.toNat?, i.toNat? with
+        | some c, some i => some (.rdy c i)
+        | _, _ => none
+      | _ => none
+    else none
+
+/-- `warm=5,0,never` -/
+def parseWarm (s : String) : List (Option Nat) :=
+  ((s.splitOn ",").filter (fun x => !x.isEmpty)).map (·.toNat?)
 
 def parseOp (ws : List String) : Option Op :=
   match ws with
-  | "arrive" :: c :: rest => some (.arrive (c.toNat?.getD 0) (planOf (parseKv rest)))
+  | "arrive" :: c :: rest =>
+    some (.arrive (c.toNat?.getD 0) (planOf (parseKv rest)) (parseWarm ((parseKv rest).str "warm" "")))
   | "poll" :: c :: _ => some (.poll (c.toNat?.getD 0))
   | "drop" :: c :: _ => some (.drop (c.toNat?.getD 0))
   | "adv" :: ms :: rest => some (.adv (ms.toNat?.getD 0) (parseOrder rest))
   | _ => none
 
-/-- header `max=<n> d=<ms> [ds=<ms>,…] [kind=fixed|imm|fn]`; the builder clamps `max` to ≥ 1 -/
+/-- header `max=<n> d=<ms> [ds=<ms>,…] [kind=fixed|imm|fn] [unit=ms|us]`; the builder clamps `max`
+to ≥ 1; `unit=us`: `d` and `ds` are microseconds -/
 def cfgOf (kv : Kv) : Cfg :=
   let d := kv.nat "d" 0
   let ds := ((kv.str "ds" "").splitOn ",").filterMap (·.toNat?)
   let kind := kv.str "kind" "fixed"
+  let mul := if kv.str "unit" "ms" = "us" then 1 else 1000
   { max := Nat.max (kv.nat "max" 2) 1,
     delay := fun n =>
       if kind = "imm" then 0
-      else if kind = "fn" then (if 1 ≤ n then ds.getD (n - 1) d else d)
-      else d }
+      else if kind = "fn" then (if 1 ≤ n then mul * ds.getD (n - 1) d else mul * d)
+      else mul * d }
 
 def machine : Machine where
   σ := Cfg × State
